@@ -189,7 +189,7 @@ func runCLHistories(c *vk.Ctx, mix string, nHist, opsPer int, hooks clHooks, cla
 
 func runC07(c *vk.Ctx) {
 	c.R.Rule = "cases = histories on one concentrated pool (spacing ∈ {1,10,100,1000}, all 7 spread factors, accumulators on either side of the scaling migration, 4 LPs, 2 traders): create (full, narrow, one-sided, abutting, extreme, dust), add-to, partial/full withdraw, exact-in/out swaps both ways (1 unit, dust, exactly-to-next-tick ±1, across ticks, into gaps, draining), claims, incentive records, transfers, block-time jumps. After EVERY operation the pool, all-ticks and position queries are compared: active liquidity, per-tick gross/net, stored tick set, price-vs-tick per position, empty-pool reset, position identity. distinct_nontrivial counts distinct (operation, #positions bucket, #initialised ticks bucket, tick-vs-positions relation, zero-active-liquidity?) tuples."
-	nHist := c.N(240, 12000)
+	nHist := c.N(1920, 12000)
 	opsPer := c.N(40, 150)
 	hooks := clHooks{afterOp: func(w *clWorld, op string) bool {
 		chk, msg := c07Check(w, w.ch.Ctx)
